@@ -371,7 +371,7 @@ def run(chk):
         byf[d["f"]] = byf.get(d["f"], 0) + 1
     chk.extra["cases_by_function"] = byf
     judge_cases(chk, cases, "URL function (relpath / project_url / relative_url / get_url / docstring link)")
-    end_to_end(chk, rng, 200 if quick else 1600, x)
+    end_to_end(chk, rng, 170 if quick else 1600, x)
     if not quick:
         chk.coqchk(["Ford.Props.C09"])
     for payload in getattr(chk, "_c09_deferred", []):
